@@ -45,17 +45,19 @@ def encode(value, squared: bool = False) -> dict:
     return {"shape": [int(s) for s in a.shape], "data": [rat(v, squared) for v in a.reshape(-1)]}
 
 
-def as_numpy(arg: dict):
+DTYPES = {"f8": np.float64, "bool": np.bool_, "i1": np.int8}
+
+
+def as_numpy(arg: dict, dt: str = "f8"):
     if not arg["shape"]:
         return float(arg["data"][0])            # a scalar operand is a python number (fluent passes `other` like that)
-    return np.array(arg["data"], dtype=np.float64).reshape(arg["shape"])
+    return np.array(arg["data"], dtype=np.int64).astype(DTYPES[dt]).reshape(arg["shape"])
 
 
-def as_xarray(arg: dict):
+def as_xarray(arg: dict, dt: str = "f8"):
     if not arg["shape"]:
         return float(arg["data"][0])
-    return xr.DataArray(np.array(arg["data"], dtype=np.float64).reshape(arg["shape"]),
-                        dims=[f"d{i}" for i in range(len(arg["shape"]))])
+    return xr.DataArray(as_numpy(arg, dt), dims=[f"d{i}" for i in range(len(arg["shape"]))])
 
 
 def _variadic(backends, op: str, arrs: list, axis: int, is_xr: bool):
@@ -70,7 +72,7 @@ def _variadic(backends, op: str, arrs: list, axis: int, is_xr: bool):
 def call_backend(backends, case: dict, wrap):
     """Run the backend call a case of Arrays.tla describes; `wrap` is as_numpy or as_xarray."""
     is_xr = wrap is as_xarray
-    arrs = [wrap(a) for a in case["args"]]
+    arrs = [wrap(a, case.get("dt", "f8")) for a in case["args"]]
     k, op, axis = case["k"], case["op"], case["axis"]
     if k == "multi":
         return getattr(backends, op)(*arrs)
